@@ -13,7 +13,9 @@ META = {
             '(Properties_C20.v) is about the generator model: every included file is emitted once, every resolved include is '
             'emitted, no character outside include directives is dropped by the expansion. Because a byte-identical header can '
             'still behave differently from the library build (once-only inclusion landing inside another feature\'s #ifdef), the '
-            'header alone and the library sources are also compiled under every single feature macro and must agree.',
+            'header alone and the library sources are also compiled under every single feature macro and must agree; and, '
+            'independently of generator and model, the header must carry the block of every library source exactly once and a '
+            'translation unit including it must define every function the library objects define (nm).',
     'note': 'Trusted: Coq 8.16.1 kernel, no axioms; extraction (ExtrOcamlBasic) + ocaml/drv_amalgam.ml (loads src/ into the '
             'abstract tree); python3 running tools/gen_qtlogger.h.py on a scratch copy; checks/c20.py (byte comparison, diff). '
             'The model is hand-written from the generator (regexes, os.path.join/abspath/exists, glob, sorted): its tie to the '
@@ -132,10 +134,77 @@ def qt_cflags():
     return vlib.sh('pkg-config --cflags ' + ' '.join(mods))[1].split()
 
 
-def syntax_check(args):
-    rc, so, se = vlib.sh(['g++', '-std=c++17', '-fsyntax-only', '-fPIC', '-w'] + args, timeout=300)
+def syntax_check(args, obj=None, keep_inline=False):
+    """compile one translation unit: syntax only, or to the object file obj"""
+    mode = ['-fsyntax-only'] if obj is None else ['-c', '-O0', '-o', obj] + (['-fkeep-inline-functions'] if keep_inline else [])
+    rc, so, se = vlib.sh(['g++', '-std=c++17', '-fPIC', '-w'] + mode + args, timeout=600)
     err = [l for l in se.splitlines() if 'error' in l]
     return rc == 0, (err[0] if err else se.strip().splitlines()[0] if se.strip() else '')[:300]
+
+
+def defined_symbols(obj, kinds=None):
+    """demangled QtLogger:: symbols an object file defines (kinds: nm type letters to keep, None = all)"""
+    rc, so, se = vlib.sh(['nm', '-C', '--defined-only', obj], timeout=120)
+    out = set()
+    for ln in so.splitlines():
+        m = re.match(r'[0-9a-f]* +(\S) (.*)$', ln)
+        if m and 'QtLogger::' in m.group(2) and (kinds is None or m.group(1) in kinds):
+            out.add(re.sub(r' \[clone [^\]]*\]', '', m.group(2)))
+    return out
+
+
+def source_files(repo):
+    """every .h/.cpp of the library (not below a build or hidden directory)"""
+    root = os.path.join(repo, 'src', 'qtlogger')
+    out = []
+    for d, dirs, fs in os.walk(root):
+        dirs[:] = [x for x in dirs if x != 'build' and not x.startswith('.')]
+        out += [os.path.join(d, f) for f in fs if f.endswith(('.h', '.cpp')) and not f.startswith('.')]
+    return sorted(out)
+
+
+def blocks_leg(chk, repo, committed):
+    """oracle on the header alone (no generator, no model): every library source has its block in
+    qtlogger.h exactly once: '// name' for the root sources (.cpp, qtlogger.h), '// name' ... '// end name'
+    for every other header"""
+    lines = committed.decode('utf-8', 'replace').split('\n')
+    opens, ends = {}, {}
+    for l in lines:
+        m = re.match(r'// end (\S+\.(?:h|cpp))$', l)
+        if m:
+            ends[m.group(1)] = ends.get(m.group(1), 0) + 1
+            continue
+        m = re.match(r'// (\S+\.(?:h|cpp))$', l)
+        if m:
+            opens[m.group(1)] = opens.get(m.group(1), 0) + 1
+    files = source_files(repo)
+    names = {}
+    for f in files:
+        names.setdefault(os.path.basename(f), []).append(os.path.relpath(f, repo))
+    bad = []
+    for n, fl in sorted(names.items()):
+        want_open = len(fl)
+        want_end = 0 if (n.endswith('.cpp') or fl == ['src/qtlogger/qtlogger.h']) else len(fl)
+        if opens.get(n, 0) != want_open or ends.get(n, 0) != want_end:
+            bad.append({'file': fl[0] if len(fl) == 1 else fl, 'block_openers_in_header': opens.get(n, 0), 'expected': want_open,
+                        'block_ends_in_header': ends.get(n, 0), 'expected_ends': want_end})
+    stray = sorted(n for n in opens if n not in names)
+    chk.cov['source_blocks'] = {'library_sources': len(files), 'with_exactly_one_block': len(files) - sum(len(names[os.path.basename(b['file'] if isinstance(b['file'], str) else b['file'][0])]) for b in bad),
+                                'blocks_of_unknown_files': stray}
+    missing = [b for b in bad if b['block_openers_in_header'] < b['expected']]
+    if bad:
+        b = (missing or bad)[0]
+        chk.fail('qtlogger.h does not carry every library source exactly once: %s has %d block(s) in the header (expected %d)%s'
+                 % (b['file'], b['block_openers_in_header'], b['expected'],
+                    '; also: ' + ', '.join(str(x['file']) for x in (missing or bad)[1:8]) if len(missing or bad) > 1 else ''),
+                 {'kind': 'source-missing-from-header', 'file': b['file'], 'blocks_in_header': b['block_openers_in_header'], 'expected_blocks': b['expected'],
+                  'all_files_with_wrong_block_count': [x['file'] for x in bad][:20],
+                  'how': "grep -c '^// %s$' /repo/qtlogger.h" % os.path.basename(b['file'] if isinstance(b['file'], str) else b['file'][0])},
+                 kind='source-missing-from-header')
+    if stray:
+        chk.fail('qtlogger.h carries blocks of files that are not library sources: %s' % stray[:5],
+                 {'kind': 'header-has-foreign-block', 'blocks': stray[:20]}, kind='header-has-foreign-block')
+    return len(files)
 
 
 def configuration_leg(chk, repo, all_sources):
@@ -148,21 +217,80 @@ def configuration_leg(chk, repo, all_sources):
     open(os.path.join(tu, 'user.cpp'), 'w').write('#include "qtlogger.h"\nint main() { return 0; }\n')
     all_cpp = sorted(os.path.join(d, f) for d, _, fs in os.walk(os.path.join(repo, 'src', 'qtlogger')) for f in fs if f.endswith('.cpp'))
     jobs = []
+    objs = {}          # (configuration, side) -> object files; thorough tier: symbols are compared as well
+    n_obj = [0]
+
+    def objfile():
+        n_obj[0] += 1
+        return os.path.join(tu, 'o%d.o' % n_obj[0])
+    # the configuration the harnesses build (library objects exist in build/lib): header object for the symbol comparison
+    DEFAULT = 'QTLOGGER_VERIF+QTLOGGER_SYSLOG'
+    ho = objfile()
+    jobs.append((DEFAULT, 'header', None, ['-DQTLOGGER_VERIF', '-DQTLOGGER_SYSLOG', '-I' + repo] + cf + [os.path.join(tu, 'user.cpp')], ho, True))
+    objs[(DEFAULT, 'header')] = [ho]
     for m in [None] + list(macros):
         D = ['-D' + m] if m else []
-        jobs.append((m, 'header', None, D + ['-I' + repo] + cf + [os.path.join(tu, 'user.cpp')]))
+        ho = objfile() if all_sources else None
+        if ho:
+            objs[(m or '(none)', 'header')] = [ho]
+        jobs.append((m, 'header', None, D + ['-I' + repo] + cf + [os.path.join(tu, 'user.cpp')], ho, True))
         files = all_cpp if (all_sources or m is None) else macros[m]
         if m is None and not all_sources:
             files = []          # quick tier: the harness builds already compile the plain library
         for f in files:
-            jobs.append((m, 'library', f, D + ['-DQTLOGGER_STATIC', '-I' + os.path.join(repo, 'src'), '-I' + os.path.join(repo, 'src', 'qtlogger')] + cf + [f]))
+            lo = objfile() if all_sources else None
+            if lo:
+                objs.setdefault((m or '(none)', 'library'), []).append((lo, f))
+            jobs.append((m, 'library', f, D + ['-DQTLOGGER_STATIC', '-I' + os.path.join(repo, 'src'), '-I' + os.path.join(repo, 'src', 'qtlogger')] + cf + [f], lo, False))
+    sym = {}
     try:
         with concurrent.futures.ThreadPoolExecutor(max_workers=min(12 if all_sources else 8, vlib.NCPU)) as ex:
-            outs = list(ex.map(lambda j: syntax_check(j[3]), jobs))
+            outs = list(ex.map(lambda j: syntax_check(j[3], j[4], j[5]), jobs))
+        # ---- symbols: what the library objects define (functions, T/t) must be defined by the header TU as well
+        ok_of = {(j[0] or '(none)', j[1], j[2]): o[0] for j, o in zip(jobs, outs)}
+        try:
+            vlib.build_harness('header')     # makes sure build/libqtlogger.a and build/lib/*.o are current
+            libdir = os.path.join(vlib.BUILD, 'lib')
+            default_objs = [(os.path.join(d, f), os.path.join(d, f)[len(libdir) + 1:-2] + '.cpp') for d, _, fs in os.walk(libdir) for f in fs
+                            if f.endswith('.o') and not f.startswith('moc_')]
+        except RuntimeError as e:
+            default_objs = []
+            chk.broke('the library does not build: ' + str(e)[-300:], {'kind': 'library-build'})
+        objs[(DEFAULT, 'library')] = default_objs
+        for (cfgname, side), lst in list(objs.items()):
+            if side != 'library':
+                continue
+            hobj = objs.get((cfgname, 'header'), [None])[0]
+            if not hobj or not os.path.exists(hobj):
+                continue
+            hs = defined_symbols(hobj)
+            miss = []
+            nlib = 0
+            for lo, f in lst:
+                if not os.path.exists(lo):
+                    continue
+                ls = defined_symbols(lo, 'Tt')
+                nlib += len(ls)
+                miss += [(os.path.relpath(f, repo) if os.path.isabs(f) else 'src/qtlogger/' + f, x) for x in sorted(ls - hs)]
+            sym[cfgname] = {'library_function_symbols': nlib, 'defined_by_header_tu': nlib - len(miss), 'header_symbols': len(hs)}
+            if miss:
+                f0, s0 = miss[0]
+                chk.fail('with %s the header defines fewer functions than the library build: %s (from %s) is defined by the library objects but not by a '
+                         'translation unit that includes qtlogger.h (%d symbols missing, from %s)'
+                         % (cfgname, s0, f0, len(miss), sorted({f for f, _ in miss})[:8]),
+                         {'kind': 'source-missing-from-header', 'configuration': cfgname, 'symbol': s0, 'file': f0, 'missing_symbols': len(miss),
+                          'files_with_missing_symbols': sorted({f for f, _ in miss})[:20], 'more_symbols': [x for _, x in miss[1:6]],
+                          'how': 'g++ -c -fkeep-inline-functions -D<macros> user.cpp (#include "qtlogger.h"); nm -C --defined-only; compare with nm of the library objects'},
+                         kind='source-missing-from-header')
     finally:
         shutil.rmtree(tu, ignore_errors=True)
+    chk.cov['symbol_comparison'] = sym
     table = {}
-    for (m, side, f, _), (ok, err) in zip(jobs, outs):
+    for (m, side, f, _, _, _), (ok, err) in zip(jobs, outs):
+        if m == DEFAULT:
+            if not ok:
+                chk.broke('the header does not compile in the configuration of the harnesses: ' + err, {'kind': 'header-default-configuration', 'error': err})
+            continue
         e = table.setdefault(m or '(none)', {'header': None, 'library': True, 'library_files': 0, 'errors': []})
         if side == 'header':
             e['header'] = ok
@@ -351,6 +479,7 @@ def run():
                                 'model_equals_generator': gen == mod, 'files_emitted': len(info.get('emitted', []))})
         finally:
             shutil.rmtree(top, ignore_errors=True)
+    checked += 1 if blocks_leg(chk, repo, committed) else 0
     n_cfg = configuration_leg(chk, repo, all_sources=thorough)
     checked += n_cfg
     if thorough:
